@@ -2522,7 +2522,12 @@ where
     T: 'a + std::fmt::Debug + Copy,
 {
     let mut pressed = states_has_coord(&layout.states, x, y);
-    for queued in layout.queue.iter() {
+    // With chords v2 configured, new events wait in its queue before they get into the layout's.
+    let not_yet_in_layout_queue = layout
+        .chords_v2
+        .iter()
+        .flat_map(|chv2| chv2.queued_events_chv2());
+    for queued in layout.queue.iter().chain(not_yet_in_layout_queue) {
         match queued.event() {
             Event::Press(i, j) if (i, j) == (x, y) => pressed = true,
             Event::Release(i, j) if (i, j) == (x, y) => pressed = false,
